@@ -402,6 +402,9 @@ func jsondecStream(rng *rand.Rand, n int, tier string, out string) (*Summary, er
 			tf.cf.add(fmt.Sprintf("JUnmarshal %d %s %s %s %s", id, uoptsTerm(optIgnore, optShadow), curTerm, jt, o))
 			id++
 			sum.count(family+"_outcome", map[bool]string{true: "ok", false: "err"}[err == nil])
+			if len(sum.Samples) < 6 && id%97 == 0 {
+				sum.Samples = append(sum.Samples, map[string]interface{}{"family": family, "pkg": name, "json": string(jb), "ok": err == nil})
+			}
 			key := family + curTerm + string(jb)
 			if !seen[key] {
 				seen[key] = true
